@@ -7,7 +7,7 @@ import SV.Model.Convert
 namespace SV.Convert
 
 /-- `omega` does not look through the `Digest` abbreviation. -/
-macro "domega" : tactic => `(tactic| ((try simp only [Digest] at *); domega))
+macro "domega" : tactic => `(tactic| ((try simp only [Digest] at *); omega))
 
 /-! ## Store -/
 
@@ -307,9 +307,9 @@ theorem TocMap.put_comm (k1 k2 : Digest) (v1 v2 : TocInfo) (m : TocMap) (h : k1 
       by_cases h12 : k1 < k2
       · have : ¬ k2 < k1 := by domega
         have h21 : ¬ k2 = k1 := fun e => hk e.symm
-        simp [h12, this, h21, TocMap.put]
+        simp [h12, this, h21]
       · have h21 : k2 < k1 := by domega
-        simp [h12, hk, h21, TocMap.put]
+        simp [h12, hk, h21]
     | cons hd tl ih =>
       obtain ⟨k', v'⟩ := hd
       have h21 : ¬ k2 = k1 := fun e => hk e.symm
@@ -520,5 +520,63 @@ theorem fetchToc_finalize_none (m : TocMap) (k : Digest) (h : ∀ v, (k, v) ∉ 
     have h2 : (l.layer, l.toc) ∈ m := (mem_finalize m l).mp hlm
     rw [hl] at h2
     exact absurd h2 (h _)
+
+end SV.Convert
+
+namespace SV.Convert
+
+/-! ## Inversion of the external-TOC wrapper -/
+
+theorem convertExt_ok (E : Env) (ll : Bool) (o : List Opt) (s : Store) (src : Src) (s' : Store) (d : Desc)
+    (p : Option (Digest × TocInfo)) (h : convertExt E ll o s src = (s', .ok d, p)) :
+    ∃ b toc s1, (if ll then convertLossless E o s src else convertEsgz E o s src) = (s1, .ok d, some b) ∧
+      b.tocBlob = some toc ∧ s' = (s1.commit E.H (.toc, 0) toc none).1 ∧
+      p = some (d.digest, ⟨E.H toc, toc.length⟩) := by
+  unfold convertExt at h
+  generalize (if ll = true then convertLossless E o s src else convertEsgz E o s src) = x at h ⊢
+  obtain ⟨s1, r, ob⟩ := x
+  simp only at h
+  cases r with
+  | untouched => simp at h
+  | err => simp at h
+  | panic => simp at h
+  | ok d0 =>
+    simp only at h
+    cases ob with
+    | none => simp at h
+    | some b =>
+      cases ht : b.tocBlob with
+      | none => simp [ht] at h
+      | some toc =>
+        simp only [Option.bind_some, ht] at h
+        injection h with h1 h2
+        injection h2 with h2 h3
+        injection h2 with h2
+        subst h2
+        exact ⟨b, toc, s1, rfl, ht, h1.symm, h3.symm⟩
+
+/-! ## The media-type table: what the property demands of a row, and the rows that miss it -/
+
+/-- What C19 demands of the row (converter `t`, input media type `m`): a non-layer type is left
+untouched; a layer type gets a layer media type that names the compression the converter really
+writes, keeps (non-)distributability, stays in its family for the gzip converters and becomes OCI for
+zstd:chunked; an error return is tolerated only where the target family has no such media type
+(Docker zstd input to zstd:chunked); a panic never. -/
+def rowOK (t : Target) (m : MT) : Bool :=
+  match outMediaType t m with
+  | .untouched => !isLayerType m
+  | .ok m' =>
+    isLayerType m && isLayerType m' && (m'.comp == some t.comp) &&
+    (isNonDistributable m' == isNonDistributable m) &&
+    (if t = .zstdchunked then !isDockerType m' else isDockerType m' == isDockerType m)
+  | .err => t = .zstdchunked && m = .dockerLayerZstd
+  | .panic => false
+
+/-- The rows on which the code as written misses `rowOK`:
+ (E1) a zstd-typed layer given to a gzip-producing converter keeps its zstd media type;
+ (E2) a non-layer media type given to an external-TOC converter panics. -/
+def rowExc (t : Target) (m : MT) : Bool :=
+  (isLayerType m && (m.comp == some .zstd) && (t != .zstdchunked)) ||
+  (!isLayerType m && (t == .extToc || t == .extTocLossless))
 
 end SV.Convert
